@@ -594,7 +594,10 @@ class Vector():
 		"""
 
 		_alias = _ALIAS_TRACKER
-		_alias.check_writable(self, id(self._underlying))
+		# All empty vectors share CPython's interned empty tuple; there is nothing
+		# a write could leak through it, so it is never a reason to refuse.
+		if self._underlying:
+			_alias.check_writable(self, id(self._underlying))
 
 		# === Fast precomputed checks ===
 		key = self._check_duplicate(key)
